@@ -1,10 +1,94 @@
-"""Entry point: python3 -m rules.main <ID> [--tier quick|thorough] [--replay path]"""
+"""Entry point: python3 -m rules.main <ID> [--tier quick|thorough] [--replay path]
+
+quick     the property's rules over the main feature configuration of /repo's current tree
+thorough  the same rules additionally over the other feature configurations in which they apply (async-io build, fusedev-only
+          build), followed by a self-test of the checker: every stored property-breaking change of this property
+          (/verif/seeded/<ID>-k/patch.diff) is applied to a throw-away copy of the current tree and the rules must report it.
+          A missed self-test is reported (SELFTEST-MISSED, and in the evidence) but is not a violation of the property.
+"""
 import importlib
 import json
 import os
+import re
+import shutil
+import subprocess
 import sys
+import tempfile
+import time
 
 from pyfbr import core
+from pyfbr import facts as factsmod
+
+# configurations the rules of a property are meaningful in besides the main one (S); D lacks virtiofs/persist/async code that
+# the rules of the other properties anchor on
+EXTRA_CFGS = {
+    "A": ["C%02d" % i for i in range(1, 21)],
+    "D": ["C05", "C06", "C07", "C08", "C09", "C10", "C11", "C12", "C13", "C15", "C16", "C18"],
+}
+SEEDED = os.path.join(core.VERIF, "seeded")
+
+
+def run_rules(pid, tier, seed, force_cfg=None):
+    ctx = core.Ctx(pid, tier, seed)
+    ctx.force_cfg = force_cfg
+    mod = importlib.import_module("rules.%s" % pid.lower())
+    mod.run(ctx)
+    return ctx
+
+
+def merge(base, other, cfg):
+    """violations found only in another configuration keep their key (so that known findings still match) and name the config"""
+    for k, v in other.violations.items():
+        if k not in base.violations:
+            v = dict(v)
+            v["message"] = "[features %s] %s" % (factsmod.CONFIGS[cfg], v["message"])
+            base.violations[k] = v
+    for c, f in other.configs.items():
+        base.configs.setdefault(c, f)
+    base.functions |= other.functions
+    base.extra.setdefault("per_config", {})[cfg] = {
+        "evaluations": len(other.instances), "distinct_nontrivial": len(other.nontrivial), "violations": len(other.violations)}
+
+
+def self_test(pid):
+    """Apply each stored breaking change to a scratch copy of the current tree and run the quick rules on it."""
+    out = []
+    seeds = sorted(d for d in os.listdir(SEEDED) if d.startswith(pid + "-")) if os.path.isdir(SEEDED) else []
+    if not seeds:
+        return out
+    tmp = tempfile.mkdtemp(prefix="fbr-selftest-")
+    try:
+        for sd in seeds:
+            patch = os.path.join(SEEDED, sd, "patch.diff")
+            if not os.path.exists(patch):
+                continue
+            t0 = time.time()
+            work = os.path.join(tmp, sd)
+            subprocess.check_call(["rsync", "-a", "--exclude", "target", "--exclude", ".git", factsmod.REPO + "/", work + "/"])
+            p = subprocess.run(["git", "apply", "--whitespace=nowarn", patch], cwd=work, stdout=subprocess.PIPE, stderr=subprocess.STDOUT, text=True)
+            if p.returncode != 0:
+                out.append({"seed": sd, "applied": False, "note": "does not apply to the current tree (tree changed since the seed was made)"})
+                shutil.rmtree(work, ignore_errors=True)
+                continue
+            env = dict(os.environ)
+            env.update(FBR_REPO=work, FBR_CACHE=os.path.join(tmp, "cache-" + sd), FBR_TARGET_BASE=factsmod.CACHE,
+                       FBR_EVID_DIR=os.path.join(tmp, "evid-" + sd), PYTHONPATH=os.path.join(core.VERIF, "engine") + ":" + core.VERIF)
+            q = subprocess.run([sys.executable, "-m", "rules.main", pid, "--tier", "quick"], cwd=core.VERIF, env=env,
+                               stdout=subprocess.PIPE, stderr=subprocess.STDOUT, text=True)
+            keys = sorted(set(re.findall(r"\[(%s/[^\]]+)\]" % pid, "\n".join(l for l in q.stdout.splitlines() if l.startswith("  ")))))
+            build = [k for k in keys if "/build/" in k]
+            real = [k for k in keys if "/build/" not in k]
+            rec = {"seed": sd, "applied": True, "detected": bool(real) and q.returncode == 1, "reported": real[:6], "wall_s": round(time.time() - t0, 1)}
+            if build:
+                rec["build_failed"] = build
+                if not real:
+                    rec["detected"] = None
+                    rec["note"] = "the changed tree did not type-check in the scratch copy; no verdict"
+            out.append(rec)
+            shutil.rmtree(work, ignore_errors=True)
+    finally:
+        shutil.rmtree(tmp, ignore_errors=True)
+    return out
 
 
 def main():
@@ -26,15 +110,22 @@ def main():
         else:
             i += 1
     seed = int(os.environ.get("VERIF_SEED", "0") or 0)
-    ctx = core.Ctx(pid, tier, seed)
     try:
-        mod = importlib.import_module("rules.%s" % pid.lower())
+        ctx = run_rules(pid, tier, seed)
     except ImportError as e:
         print("no rules for %s: %s" % (pid, e))
         return 2
-    mod.run(ctx)
-    if tier == "thorough" and hasattr(mod, "thorough"):
-        mod.thorough(ctx)
+    if tier == "thorough" and not replay:
+        for cfg in ("A", "D"):
+            if pid in EXTRA_CFGS[cfg]:
+                other = run_rules(pid, tier, seed, force_cfg=cfg)
+                merge(ctx, other, cfg)
+        st = self_test(pid)
+        ctx.self_test = {"what": "each stored property-breaking change applied to a scratch copy of the current tree; the quick rules must report it",
+                         "results": st}
+        for r in st:
+            if r.get("applied") and r.get("detected") is False:
+                print("SELFTEST-MISSED: property=%s %s is not reported by the rules" % (pid, r["seed"]))
     rc = ctx.finish()
     if replay:
         want = json.load(open(replay)).get("key")
